@@ -27,7 +27,8 @@ inline arr_real arange(real_t stop) {
 }
 
 inline arr_real arange(int start, int stop, int step = 1) {
-    const auto n = (int)std::round((stop - start) / double(step));
+    //number of values start + k*step that lie strictly before stop (none: empty array)
+    const auto n = std::max(0, (int)std::ceil((stop - start) / double(step)));
     arr_real r(n);
     for (int i = 0; i < n; ++i) {
         r[i] = start;
